@@ -68,7 +68,7 @@ def set_compose(m):
 
 
 COMPOSE_DOC = {"id": "Fedora-22-20150522.0", "type": "production", "date": "20150522", "respin": 0}
-VERSTR = {0: "0.0", 100: "1.0", 101: "1.1", 102: "1.2"}
+VERSTR = {0: "0.0", 100: "1.0", 101: "1.1", 102: "1.2", 200: "2.0"}
 
 
 def doc_text(doc, ver, k, s=0):
@@ -112,6 +112,20 @@ def replay_history(case):
                 m.add(ev["v"], ev["a"], imgs[ev["img"]])
             elif ev["op"] == "setversion":
                 m.header.version = VERSTR[ev["ver"]]
+            elif ev["op"] == "edit":
+                # the identifying attributes of the image (the pool object and every filed object of that name) are reassigned
+                from productmd.images import identify_image
+                objs = [imgs[ev["img"]]] + [i for v in m.images for a in m.images[v] for i in m.images[v][a]
+                                            if i.path.split("/")[-1][:-4] == ev["img"] and i is not imgs[ev["img"]]]
+                for o in objs:
+                    for at, val in ident_fields(ev["ident"], k).items():
+                        setattr(o, at, list(val) if isinstance(val, list) else val)
+                    ser = []
+                    o.serialize(ser)
+                    if identify_image(o) != identify_image(ser[0]):
+                        fails.append("step %d: after reassigning identity attributes of %s, identify_image(object) = %s but its "
+                                     "serialised record gives %s" % (step, ev["img"], tuple(identify_image(o)), tuple(identify_image(ser[0]))))
+                        return fails
             elif ev["op"] == "dump":
                 text = m.dumps()
                 json.loads(text)
@@ -187,6 +201,8 @@ def _short(hist):
             out.append("add(%s,%s,%s)" % (e["v"], e["a"], e["img"]))
         elif e["op"] == "setversion":
             out.append("ver=%s" % e["ver"])
+        elif e["op"] == "edit":
+            out.append("edit(%s:=%s)" % (e["img"], e["ident"]))
         elif e["op"] in ("load", "loadinto"):
             out.append("%s(%s,%s)" % (e["op"], e["ver"], json.dumps(e["doc"], sort_keys=True)))
         else:
